@@ -65,10 +65,10 @@ impl Check for C12 {
         40
     }
     fn cases(&self, tier: Tier) -> u64 {
-        tier.pick(2_000, 40_000)
+        tier.pick(10_000, 200_000)
     }
     fn enum_count(&self, tier: Tier) -> u64 {
-        word_count(tier.pick(10, 12) as u32)
+        word_count(12)
     }
     fn enum_exhaustive(&self, _tier: Tier) -> bool {
         true
@@ -179,7 +179,7 @@ impl Check for C12 {
         Ok(())
     }
     fn rule(&self) -> String {
-        "exhaustive part (complete): every word over {<,=,>} of length k <= 10 (quick, 88 574 words) / k <= 12 (thorough, 797 162 words) plus the \
+        "exhaustive part (complete): every word over {<,=,>} of length k <= 12 (797 162 words, both tiers) plus the \
          empty vector, realised with unit steps and with varying step sizes as f64, f32, i32, i64, as contiguous arrays, reversed-stride views and \
          every-2nd-element views; every non-empty subset of NaN positions on every word up to vector length 8 (f64, f32). Random part: vectors of \
          10^3..10^5 elements, strictly monotone except for one tie / one reversal / both / one NaN at a generated (mostly late) position. Oracle: \
